@@ -8,6 +8,9 @@ import subprocess
 import vp
 
 
+# the daemon the test process addresses (a developer with a non-default docker context): every docker / pack command the runner issues
+# has to address the same one - a container started on one daemon is not removed by "docker rm" on another
+ENDPOINT_ENV = {"DOCKER_HOST": "unix:///nonexistent.sock", "DOCKER_CONTEXT": "staging"}
 _CARGO = []
 
 
@@ -70,7 +73,7 @@ class Env:
             json.dump(plan or {}, f)
         # PATH holds the stand-ins only: a real docker CLI may be installed on the machine, and a stand-in that a scripted fault removed
         # must really be "not found"
-        env = {"PATH": self.bin, "HTTP_PROXY": "http://proxy.host:3128", "HTTPS_PROXY": "http://proxy.host:3128", "NO_PROXY": "localhost", "http_proxy": "http://proxy.host:3128", "https_proxy": "http://lower.proxy:1", "no_proxy": "x", "DOCKER_HOST": "unix:///nonexistent.sock", "TMPDIR": self.tmp, "CARGO_MANIFEST_DIR": self.crate, "VP_CMDLOG": self.log, "VP_CMDPLAN": self.plan, "VP_STANDIN_BIN": self.bin, "VP_STANDIN_TARGET": os.path.join(vp.BIN, "vpstandin"), "RUST_BACKTRACE": "0",
+        env = {"PATH": self.bin, "HTTP_PROXY": "http://proxy.host:3128", "HTTPS_PROXY": "http://proxy.host:3128", "NO_PROXY": "localhost", "http_proxy": "http://proxy.host:3128", "https_proxy": "http://lower.proxy:1", "no_proxy": "x", "DOCKER_HOST": ENDPOINT_ENV["DOCKER_HOST"], "DOCKER_CONTEXT": ENDPOINT_ENV["DOCKER_CONTEXT"], "TMPDIR": self.tmp, "CARGO_MANIFEST_DIR": self.crate, "VP_CMDLOG": self.log, "VP_CMDPLAN": self.plan, "VP_STANDIN_BIN": self.bin, "VP_STANDIN_TARGET": os.path.join(vp.BIN, "vpstandin"), "RUST_BACKTRACE": "0",
                # (cargo test sets CARGO; libcnb-test asks it for the workspace root when it packages a buildpack of the crate under test)
                "CARGO": real_cargo()}
         try:
